@@ -6,7 +6,7 @@
 """
 import copy
 import numpy as np
-from pmv import common, gen, observe
+from pmv import common, gen, observe, corpus
 from pmv.oracles import nfref
 
 ID   = 'C06'
@@ -28,7 +28,8 @@ CASE_TIMEOUT = 300
 
 def plan (tier, seed):
     n = 200 if tier == 'quick' else 4000
-    return [dict (i = i, seed = seed) for i in range (n)]
+    return [dict (i = i, seed = seed) for i in range (n)] \
+         + corpus.plan_cases (seed, tier, 1, 4, only = lambda s: all (g ['k'] == 'w' for g in s ['geo']), skip = corpus.OUTSIDE_RULES)
 # end def plan
 
 def ratio_family (rng):
@@ -58,12 +59,61 @@ def ratio_family (rng):
                 , feeds = [dict (at = at.tolist (), dir = (o - a).tolist ()), dict (at = o.tolist (), dir = (o - a).tolist ())])
 # end def ratio_family
 
+def collinear_family (rng):
+    """ a straight wire along a coordinate axis written as two (or three) objects whose segment lengths and
+        direction vectors are bitwise equal (segment length a multiple of 2 ** -10 m, pieces start on multiples of it),
+        with or without a radius step, plus a bent-off or a parasitic wire; the objects in random order
+    """
+    f    = float (rng.choice (gen.FREQS))
+    lam  = gen.C_MHZ / f
+    L    = max (1, round (lam / float (rng.uniform (25, 60)) * 1024)) / 1024.0
+    rad  = min (lam * float (10 ** rng.uniform (-5, -3.6)), L / 9)
+    ax   = int (rng.integers (0, 3))
+    e    = np.eye (3) [ax]
+    e2   = np.eye (3) [(ax + 1) % 3]
+    ns   = [int (rng.integers (2, 7)) for k in range (int (rng.integers (2, 4)))]
+    geo  = []
+    x0   = 0
+    for k, n in enumerate (ns):
+        r = rad * (float (rng.choice ([1, 1, 0.5, 2])) if k else 1)
+        geo.append (gen.wire (n, e * x0 * L, e * (x0 + n) * L, min (r, L / 9)))
+        x0 += n
+    kind = str (rng.choice (['bent', 'parasitic', 'none']))
+    nx = int (rng.integers (2, 5))
+    if kind == 'bent':
+        geo.append (gen.wire (nx, e * x0 * L, e * x0 * L + e2 * nx * L, rad))
+    elif kind == 'parasitic':
+        geo.append (gen.wire (nx, e2 * 3 * L, e2 * 3 * L + e * nx * L, rad))
+    k   = int (rng.integers (1, ns [0]))
+    feeds = [dict (at = (e * k * L).tolist (), dir = e.tolist ())]
+    order = [int (x) for x in rng.permutation (len (geo))]
+    return dict (f = f, geo = [geo [i] for i in order], fam = 'collinear-' + kind, media = None, loads = [], feeds = feeds)
+# end def collinear_family
+
 def make (c):
     rng = np.random.default_rng ([c ['seed'], 6, c ['i']])
+    if 'corpus' in c:
+        # the repository's antennas (wires only; sources and loads by location): coordinates with few digits,
+        # axis-parallel wires, so that the pieces of a split wire have bitwise equal segment lengths
+        spec = corpus.located (corpus.make (c, 6))
+        if spec ['media'] is not None:
+            spec ['media'] = [[0.0, 0.0, 0.0, None]]
+            spec.pop ('boundary', None)
+            spec.pop ('radials', None)
+        spec ['loads'] = [l for l in spec ['loads'] if l.get ('tag') is None]
+        for g in spec ['geo']:
+            g ['tag'] = None
+            if g.get ('taper'):
+                g ['taper'] = [g ['taper'][0], g ['taper'][1] or None, g ['taper'][2]]
+        return add_var (c, rng, spec)
     sym = bool (rng.random () < 0.2)
     if c ['i'] % 12 == 11:
         sym  = False
         spec = ratio_family (np.random.default_rng ([c ['seed'], 62, c ['i']]))
+        gen.add_sources (rng, spec, nmax = 1)
+    elif c ['i'] % 12 == 5:
+        sym  = False
+        spec = collinear_family (np.random.default_rng ([c ['seed'], 63, c ['i']]))
         gen.add_sources (rng, spec, nmax = 1)
     elif sym:
         spec = symmetric (rng)
@@ -109,6 +159,11 @@ def make (c):
         objs = [int (x) for x in rd.permutation (n) [: int (rd.integers (1, min (n, 3)))]]
         kind = str (rd.choice (['skin', 'skin', 'ins']))
         spec ['dist'] = dict (objs = objs, kind = kind, cond = float (10 ** rd.uniform (3, 6)), eps = float (rd.uniform (1.5, 4)), rfac = float (rd.uniform (1.3, 3)))
+    return add_var (c, rng, spec)
+# end def make
+
+def add_var (c, rng, spec):
+    n = len (spec ['geo'])
     spec ['var'] = dict ( masks = [[int (x) for x in rng.integers (0, 2, n)] for k in range (2)]
                         , perm = [int (x) for x in rng.permutation (n)]
                         , tags = [int (x) for x in rng.permutation (n) + 1], explicit = bool (rng.random () < 0.5)
@@ -119,7 +174,7 @@ def make (c):
         if g.get ('taper'):
             spec ['var']['masks'][0][k] = 1
     return gen.clean (spec)
-# end def make
+# end def add_var
 
 def symmetric (rng):
     """ structure symmetric about the plane x = 0 of a local frame, rotated at random """
